@@ -2927,6 +2927,10 @@ def transform_compressible(items, constants, labels):
     # used for imm evaluation
     env = ChainMap(constants, labels)
 
+    # names that are a label as well as a constant: the constant wins when
+    # the immediates get resolved, so such a label is no jump target here
+    shadowed = [k for k in labels if k in constants]
+
     position = 0
     new_items = []
     for item in items:
@@ -2948,6 +2952,8 @@ def transform_compressible(items, constants, labels):
                 # (labels only: a constant as target is an absolute address
                 # that gets further away when the code in front shrinks)
                 pred_env = labels
+                if shadowed:
+                    pred_env = {k: v for k, v in labels.items() if k not in constants}
                 pred_position = position
             else:
                 pred_env = constants
